@@ -18,6 +18,9 @@ CLAIMED = {
  "C12": ("exploration", "invariant monitor on /metadata snapshots + panic capture",
    "Same histories; stored-state invariants, the broker's own consistency check, panics (catch_unwind) and refused-allocation atomicity after every operation; host spread of new chunks and replacements against the free pool of the preceding snapshot.",
    "section 2, C12"),
+ "C15": ("exploration", "differential monitor against a strict reference RESP parser/encoder",
+   "Generated values and pipelines, every 1-cut split of short streams plus random k-cut splits, through all eight decoder entry points (incl. RespCodec under FramedRead and the paired multi codec) and seven encoder entry points; negative inputs judged by the reference parser.",
+   "section 2, C15"),
  "C18": ("exploration", "history monitor with injected report ages",
    "Report-heavy histories with report ages injected through GET/PUT metadata; soundness oracle on every listing with clock-interval reasoning (no wall-clock verdicts).",
    "section 2, C18"),
